@@ -531,6 +531,9 @@ impl<'a> Gen<'a> {
     /// returns (expr, is_keyed)
     fn dollar_candidate(&mut self, budget: usize) -> (G, bool) {
         if self.cfg.w_concat > 0 && self.rng.chance(1, 6) {
+            if self.rng.chance(1, 3) {
+                return (self.mixed_concat_slice(budget), true);
+            }
             return (self.keyed_concat(budget).0, true);
         }
         match self.rng.below(5) {
@@ -571,6 +574,31 @@ impl<'a> Gen<'a> {
             cur = G::bin("<>", cur, p);
         }
         (cur, n)
+    }
+
+    /// a slice of a concatenation in which keyed pairs and plain values alternate: `((:ka = e) <> 5 <> (:kb = e) <> 7) <~ (a..b)`
+    fn mixed_concat_slice(&mut self, budget: usize) -> G {
+        let mut ks = self.cfg.keys.clone();
+        self.rng.shuffle(&mut ks);
+        let n = self.rng.range(3, 5);
+        let each = (budget.saturating_sub(2) / n).saturating_sub(2).max(1);
+        let mut parts: Vec<G> = vec![];
+        let mut k = 0;
+        for i in 0..n {
+            if (i % 2 == 0 || self.rng.chance(1, 3)) && k < ks.len() {
+                parts.push(G::bin("=", G::Atom(format!(":{}", ks[k])), self.scalar(each)));
+                k += 1;
+            } else {
+                parts.push(G::num(self.rng.range_i(0, 9)));
+            }
+        }
+        let mut cur = parts.remove(0);
+        for p in parts {
+            cur = G::bin("<>", cur, p);
+        }
+        let a = self.rng.range_i(0, 2);
+        let b = a + self.rng.range_i(0, n as i64 - 1);
+        G::bin("<~", cur, G::bin("..", G::num(a), G::num(b)))
     }
 
     /// list-free expression
@@ -713,7 +741,7 @@ impl<'a> Gen<'a> {
                     G::Access(Box::new(G::atom("$")), self.key())
                 } else if c.w_concat > 0 && self.rng.chance(1, 3) {
                     let k = self.key();
-                    let target = self.keyed_concat(budget - 1).0;
+                    let target = if self.rng.chance(1, 3) { self.mixed_concat_slice(budget - 1) } else { self.keyed_concat(budget - 1).0 };
                     G::Access(Box::new(target), k)
                 } else {
                     let k = self.key();
